@@ -252,6 +252,16 @@ func c12Jobs() []c12Job {
 			jobs = append(jobs, c12Job{Kind: "src-real", Target: name, Name: m, Spell: string(unicode.ToLower(rune(m[0]))) + m[1:], Form: "p.m(a)"})
 		}
 	}
+	// an allow-listed name called on one provider and then on another that has no such method: whatever the first call
+	// left behind (a lookup cache, a resolved method) must not make the second provider run anything
+	for _, an := range realNames {
+		for _, m := range c12Methods(reals[an]) {
+			if !c12Allowed(m) {
+				continue
+			}
+			jobs = append(jobs, c12Job{Kind: "lib-cross", Target: an, Name: m, Spell: string(unicode.ToLower(rune(m[0]))) + m[1:]})
+		}
+	}
 	// last: a custom provider registers method names that other providers also have as Go
 	// methods (Query, Close, Exec, ...). That must not make them reachable on any other provider.
 	for _, m := range c12Methods(probe) {
@@ -320,6 +330,42 @@ func c12Worker(in, out string) {
 				}
 			}
 			w.Count("calls_after_registration", 1)
+		case "lib-cross":
+			reals := c12RealProviders()
+			first := reals[j.Target]
+			for _, args := range [][]interface{}{{}, {"s"}, {"s", int64(1)}} {
+				func() {
+					defer func() { recover() }()
+					interpreter.CallMethod(first, j.Spell, args...)
+				}()
+				for bn, other := range reals {
+					if bn == j.Target {
+						continue
+					}
+					has := false
+					for _, om := range c12Methods(other) {
+						if strings.EqualFold(om, j.Name) {
+							has = true
+						}
+					}
+					if has {
+						continue
+					}
+					var pan interface{}
+					var err error
+					w.Watch(fmt.Sprintf("CallMethod(%s, %q) after the same name on %s", bn, j.Spell, j.Target), 30*time.Second, func() {
+						defer func() { pan = recover() }()
+						_, err = interpreter.CallMethod(other, j.Spell, args...)
+					})
+					wit := map[string]interface{}{"job": j, "second_provider": bn, "args": fmt.Sprintf("%#v", args)}
+					if pan != nil {
+						w.Violate("panic:CallMethod:cross:"+c12PanicClass(pan), fmt.Sprintf("CallMethod(%s, %q) after CallMethod(%s, %q) panicked: %v", bn, j.Spell, j.Target, j.Spell, clipN(fmt.Sprint(pan), 160)), wit)
+					} else if err == nil {
+						w.Violate("method-the-provider-does-not-have-succeeded:"+bn, fmt.Sprintf("%s has no method %s, yet CallMethod(%s, %q) succeeded after the same name had been called on %s: some other Go method of %s ran", bn, j.Name, bn, j.Spell, j.Target, bn), wit)
+					}
+					w.Count("cross_provider_second_calls", 1)
+				}
+			}
 		case "lib-probe", "lib-real":
 			var obj interface{}
 			var probe *Probe
@@ -332,6 +378,13 @@ func c12Worker(in, out string) {
 			for vi, args := range vectors {
 				if j.Kind == "lib-real" && (j.Target == "HTTPHandler") && vi > 40 {
 					break // outbound calls fail fast (no network) but each still costs a dial
+				}
+				if rm, ok := obj.(*redis.MockHandler); ok {
+					// the keys the argument pool names exist before every call: an operation on a live key takes other
+					// paths than one on a missing key (expire with a non-positive timeout, incr on a string, ...)
+					rm.Set("s", "v")
+					rm.Set("", "v")
+					rm.Set("7", "1")
 				}
 				var pan interface{}
 				var res interface{}
